@@ -117,6 +117,189 @@ def opItemRules (req : Json) : Except String Json := do
   | .ok q => pure (okJson (.arr ((sortStrs q).map ofStr).toArray))
   | .error e => pure (errJson e)
 
+/-! ### Tagged JSON transport: `{"s":…}`, `{"i":"123"}`, `{"b":…}`, `null`, `{"f":…}`, `[…]`, `{"o":[[k,v],…]}` -/
+
+partial def jvalOf (j : Json) : Except String JVal :=
+  match j with
+  | .null => pure .null
+  | .arr a => do pure (.arr (← a.toList.mapM jvalOf))
+  | .obj _ =>
+    match j.getObjVal? "s" with
+    | .ok (.str s) => pure (.str s.toList)
+    | _ =>
+    match j.getObjVal? "i" with
+    | .ok (.str s) =>
+      match s.toInt? with
+      | some n => pure (.int n)
+      | none => throw "bad int"
+    | _ =>
+    match j.getObjVal? "b" with
+    | .ok (.bool b) => pure (.bool b)
+    | _ =>
+    match j.getObjVal? "f" with
+    | .ok (.str s) => pure (.float s.toList)
+    | _ =>
+    match j.getObjVal? "o" with
+    | .ok (.arr a) => do
+      let kvs ← a.toList.mapM (fun x =>
+        match x with
+        | .arr #[.str k, v] => do pure (k.toList, ← jvalOf v)
+        | _ => throw "bad member")
+      pure (.obj kvs)
+    | _ => throw "bad tagged value"
+  | _ => throw "bad tagged value"
+
+def optField (j : Json) (k : String) : Option Json :=
+  match j.getObjVal? k with
+  | .ok .null => none
+  | .ok v => some v
+  | .error _ => none
+
+def sigPairsOf (j : Json) : Except String (List SigEntry) := do
+  (← pairs j).mapM (fun (k, v) => do
+    pure { keyid := some (← toStr k), gpgShaped := false, value := some (← toStr v) })
+
+def envAuxOf (j : Json) : Except String EnvAux := do
+  let text ← toStr (← field j "text")
+  let parsed ← match optField j "json" with
+    | some pj => do pure (some (← jvalOf (← field pj "v")))
+    | none => pure none
+  pure { payloadText := text, parsed, sigs := ← sigPairsOf (← field j "sigs") }
+
+def fileContentOf (j : Json) : Except String FileContent :=
+  match j with
+  | .null => pure none
+  | _ => do
+    let data ← jvalOf (← field j "data")
+    let aux ← match optField j "env" with
+      | some e => do pure (some (← envAuxOf e))
+      | none => pure none
+    pure (some (data, aux))
+
+def inspOutcomeOf (j : Json) : Except String InspOutcome :=
+  match j with
+  | .str "timeout" => pure .timeout
+  | .str "oserror" => pure .oserror
+  | _ => do
+    let code ← match (← field j "exit") with
+      | .str s => match s.toInt? with | some n => pure n | none => throw "bad exit"
+      | _ => throw "bad exit"
+    pure (.exit code (← artifactsOf (← field j "materials")) (← artifactsOf (← field j "products")))
+
+def paramsOf (j : Json) : Except String (List (Str × Option Str)) := do
+  (← pairs j).mapM (fun (k, v) => do
+    pure ((← toStr k), match v with | .str s => some s.toList | _ => none))
+
+def worldOf (req : Json) : Except String World := do
+  let sigs ← (← arr (← field req "sigs")).mapM (fun x =>
+    match x with
+    | .arr #[.str v, .str m, .str msg] => pure (v.toList, m.toList, msg.toList)
+    | _ => throw "bad sig table entry")
+  let files ← (← pairs (← field req "files")).mapM (fun (k, v) => do
+    pure ((← toStr k), (← fileContentOf v)))
+  let insp ← (← pairs (← field req "insp")).mapM (fun (k, v) => do
+    pure ((← strList k), (← inspOutcomeOf v)))
+  let toInt (k : String) : Except String Int := do
+    match (← field req k) with
+    | .str s => match s.toInt? with | some n => pure n | none => throw "bad int"
+    | _ => throw "bad int"
+  pure { S := { verify := fun material msg v => sigs.contains (v, material, msg) },
+         nowMicros := ← toInt "now_us", nowSec := ← toInt "now_s", files,
+         insp := fun cmd => (insp.find? (fun p => p.1 = cmd)).map (·.2) }
+
+def jsonOfJVal : JVal → Json
+  | .str s => ofStr s
+  | .int n => Json.mkObj [("int", .str (toString n))]
+  | .bool b => .bool b
+  | .null => .null
+  | .float r => Json.mkObj [("float", ofStr r)]
+  | .arr _ => .str "<arr>"
+  | .obj _ => .str "<obj>"
+
+def canonJson (v : JVal) : Json :=
+  match canon v with
+  | some s => ofStr s
+  | none => .null
+
+def resultJson (r : Except Err Link) : Json :=
+  match r with
+  | .ok l => okJson (canonJson l.toJ)
+  | .error e => errJson e
+
+def metadataPayloadJson (md : Metadata) : Json :=
+  match md.getPayload with
+  | .ok p => canonJson p.toJ
+  | .error _ => .null
+
+def opVerify (req : Json) : Except String Json := do
+  let w ← worldOf req
+  let root ← fileContentOf (← field req "layout")
+  let keys ← (← pairs (← field req "keys")).mapM (fun (k, v) => do pure ((← toStr k), (← jvalOf v)))
+  let dir ← toStr (← field req "dir")
+  let params ← match optField req "params" with
+    | some p => do pure (some (← paramsOf p))
+    | none => pure none
+  let fuel := ((fieldD req "fuel" (.num 8)).getNat?).toOption.getD 8
+  let name ← toStr (fieldD req "step_name" (.str ""))
+  match root with
+  | none => pure (Json.mkObj [("load", errJson .other)])
+  | some (data, aux) =>
+    match Metadata.fromDict data aux with
+    | .error e => pure (Json.mkObj [("load", errJson e)])
+    | .ok md =>
+      let out := verify Glob.fnmatch w fuel md keys dir params name
+      let after := callerAfter w md keys params
+      pure (Json.mkObj [("load", .str "ok"), ("result", resultJson out.result),
+        ("trace", .arr (out.trace.map (fun c => Json.arr (c.map ofStr).toArray)).toArray),
+        ("payload_before", metadataPayloadJson md),
+        ("payload_after", metadataPayloadJson after)])
+
+/-- `Metadata.load` + `verify_signature(key)` + signable bytes, for C09. -/
+def opLoadVerifySig (req : Json) : Except String Json := do
+  let w ← worldOf req
+  let file ← fileContentOf (← field req "file")
+  let key ← jvalOf (← field req "key")
+  match file with
+  | none => pure (Json.mkObj [("load", errJson .other)])
+  | some (data, aux) =>
+    match Metadata.fromDict data aux with
+    | .error e => pure (Json.mkObj [("load", errJson e)])
+    | .ok md =>
+      let chk := match md.verifySignature w.S w.nowSec key with
+        | .ok => "ok" | .bad => "SignatureVerificationError" | .expired => "KeyExpirationError"
+        | .crash e => e.name
+      pure (Json.mkObj [("load", .str "ok"), ("check", .str chk),
+        ("bytes", match md.signedBytes with | some b => ofStr b | none => .null),
+        ("payload", metadataPayloadJson md)])
+
+def opCanon (req : Json) : Except String Json := do
+  let v ← jvalOf (← field req "v")
+  match canon v with
+  | some s => pure (okJson (ofStr s))
+  | none => pure (errJson .format)
+
+def opExpiry (req : Json) : Except String Json := do
+  let s ← toStr (← field req "s")
+  match expiryInstant s with
+  | some t => pure (okJson (.str (toString t)))
+  | none => pure (errJson .format)
+
+def opFormat (req : Json) : Except String Json := do
+  let t ← toStr (← field req "template")
+  let raw ← paramsOf (← field req "params")
+  match checkParams raw with
+  | .error e => pure (errJson e)
+  | .ok params =>
+    match InToto.format params t with
+    | .ok s => pure (okJson (ofStr s))
+    | .error e => pure (errJson e)
+
+def opReadPayload (req : Json) : Except String Json := do
+  let v ← jvalOf (← field req "v")
+  match readPayload .format v with
+  | .ok p => pure (okJson (canonJson p.toJ))
+  | .error e => pure (errJson e)
+
 def dispatch (op : String) (req : Json) : Except String Json :=
   match op with
   | "ping" => pure (okJson (.str "pong"))
@@ -124,6 +307,12 @@ def dispatch (op : String) (req : Json) : Except String Json :=
   | "pack_rule" => opPackRule req
   | "glob" => opGlob req
   | "item_rules" => opItemRules req
+  | "verify" => opVerify req
+  | "load_verify_sig" => opLoadVerifySig req
+  | "canon" => opCanon req
+  | "expiry" => opExpiry req
+  | "format" => opFormat req
+  | "read_payload" => opReadPayload req
   | _ => throw s!"unknown op {op}"
 
 def handle (line : String) : String :=
